@@ -40,7 +40,7 @@ LEAF = gen.ALL_SOURCES + ["Sensor"]
 
 
 def budget(tier):
-    return {"examples": 1200 if tier == "quick" else 50000, "steps": 10}
+    return {"examples": 3000 if tier == "quick" else 50000, "steps": 10}
 
 
 # ------------------------------------------------------------------------------- helpers
@@ -103,12 +103,12 @@ class State:
         if style_kw.pop("trace_object", False):
             # a mutable style object instance given at construction (documented model3d notation)
             style_kw["style_model3d_data"] = [m.graphics.Trace3d(
-                backend="generic", constructor="Scatter3d", kwargs={"x": [0, 1], "y": [0, 1], "z": [0, 1]})]
+                backend="generic", constructor="Scatter3d", kwargs={"x": np.array([0.0, 1.0]), "y": [0, 1], "z": [0, 1]})]
         self.orig = self._build(spec, style_kw)
         self.holder = None
         if init.get("with_parent"):
             self.holder = m.Collection(self.orig)
-        if init["style_state"] == "initialised":
+        if init["style_state"] in ("initialised", "initialised_from_kwargs"):
             for o in _members(self.orig):
                 _ = o.style  # noqa: F841
         self.copy = None
@@ -332,7 +332,9 @@ def apply_op(state, op, ctx):
             tgt.style.model3d.showdefault = False
         elif how == "trace":
             data = tgt.style.model3d.data
-            if data:
+            if data and op.get("value", "").startswith(("r", "b", "g")) and isinstance(data[0].kwargs.get("x"), np.ndarray):
+                data[0].kwargs["x"][0] = 99.0  # in-place write into the array held by the trace
+            elif data:
                 data[0].kwargs["x"] = [7, 8]
                 data[0].show = False
             else:
@@ -387,7 +389,7 @@ def apply_op(state, op, ctx):
 def finish(state, init, ops, ctx):
     case = {"init": init, "ops": ops}
     deep = trees.depth(init["object"]) >= 2
-    nt = (init.get("with_parent") or init["style_state"] != "initialised" or deep) and state.mutations >= 1 and state.copy is not None
+    nt = (init.get("with_parent") or init["style_state"] not in ("initialised",) or deep) and state.mutations >= 1 and state.copy is not None
     ctx.label("style_state:" + init["style_state"])
     ctx.label("class:" + init["object"]["cls"])
     if nt:
@@ -416,13 +418,16 @@ class CopyMachine(machine.VMachine):
         else:
             obj = data.draw(trees.collection_spec(gen.source_spec(classes=["Cuboid", "Sphere", "Circle", "Dipole", "Tetrahedron"], max_path=2, L=1.0),
                                                   max_depth=3, max_children=3, sensor=gen.sensor_spec(max_path=2)))
-        style_state = data.draw(st.sampled_from(["untouched", "pending", "pending", "initialised"]))
+        style_state = data.draw(st.sampled_from(["untouched", "pending", "pending", "initialised", "initialised_from_kwargs"]))
         style_kw = {}
-        if style_state == "pending":
+        if style_state in ("pending", "initialised_from_kwargs"):
             style_kw = data.draw(st.sampled_from([{"style_label": "orig"}, {"style_color": "yellow"},
                                                   {"style": {"color": "pink", "opacity": 0.5}},
                                                   {"style_label": "orig", "style_opacity": 0.7},
                                                   {"style_path_line_width": 4}, {"trace_object": True}, {"trace_object": True, "style_label": "orig"}]))
+        if style_state == "initialised_from_kwargs":
+            # (the initialised state that differs from plain 'initialised' is the one that holds a style object instance)
+            style_kw = data.draw(st.sampled_from([{"trace_object": True}, {"trace_object": True, "style_label": "orig"}, {"style_color": "yellow"}]))
         self.start({"object": obj, "with_parent": data.draw(st.booleans()), "style_state": style_state, "style_kw": style_kw})
         names = sorted(OVERRIDES)
         over = [n for n in names if data.draw(st.integers(0, 5)) == 0]
